@@ -5,6 +5,7 @@ package decorator
 // in-process webhook.
 
 import (
+	"context"
 	"encoding/json"
 	"fmt"
 	"sort"
@@ -31,7 +32,15 @@ import (
 	vs "metacontroller/pkg/internal/verifsim"
 )
 
-func init() { utilruntime.ErrorHandlers = nil }
+var lastSyncError string
+
+func init() {
+	utilruntime.ErrorHandlers = []utilruntime.ErrorHandler{func(_ context.Context, err error, msg string, _ ...interface{}) {
+		if err != nil {
+			lastSyncError = err.Error()
+		}
+	}}
+}
 
 type resSpec struct {
 	APIVersion string `json:"apiVersion"`
@@ -256,6 +265,7 @@ func (w *world) cacheDump() vs.M {
 func (w *world) runSync(key string) (outcome, detail string) {
 	w.q.Reset()
 	w.q.Pending = []interface{}{key}
+	lastSyncError = ""
 	defer func() {
 		if r := recover(); r != nil {
 			outcome, detail = "panic", fmt.Sprint(r)
@@ -268,7 +278,7 @@ func (w *world) runSync(key string) (outcome, detail string) {
 			outcome = "error"
 		}
 	}
-	return outcome, ""
+	return outcome, lastSyncError
 }
 
 // ---- scenario ---------------------------------------------------------------------------------
